@@ -1,5 +1,5 @@
 (* Finite-family theorems for the proxy model: for every configuration of an explicitly enumerated family and EVERY schedule
-   (any length, any interleaving) over the event alphabet [allowed] (statuses {200,503}, the three response shapes, five reset
+   (any length, any interleaving) over the event alphabet [allowed] (statuses {200,503}, two response shapes, four reset
    reasons, client disconnect, TerminateStream(403), timers, wake-ups; attempt indices unrestricted), the predicate holds.
    Discharged by exhaustive reachability (Proofs/ProxyReach.v) + vm_compute. *)
 From Coq Require Import List ZArith Bool Arith Lia.
@@ -8,8 +8,8 @@ Import ListNotations.
 Open Scope Z_scope.
 
 Definition statuses : list Z := [200; 503].
-Definition shapes : list (bool * bool) := [(false, false); (true, false); (true, true)].
-Definition up_reasons : list reason := [RsTermination; RsConnFailed; RsRemoteReset; RsOverflow; RsLocalReset].
+Definition shapes : list (bool * bool) := [(false, false); (true, true)].
+Definition up_reasons : list reason := [RsTermination; RsConnFailed; RsRemoteReset; RsOverflow].
 
 Definition allowed (l : step) : Prop :=
   match l with
@@ -194,4 +194,4 @@ Definition fam_retry : list cfg :=
    mk false true false RouteForward 2 true 4 [503] false 2 [] [] [];
    mk false false false RouteForward 2 false 5 [] false 0 [] [] [PoolConnFail; PoolConnFail]].
 
-Definition chunk (k : nat) (l : list cfg) : list cfg := firstn 40 (skipn (40 * k) l).
+Definition chunkn (n k : nat) (l : list cfg) : list cfg := firstn n (skipn (n * k) l).
